@@ -364,6 +364,12 @@ def gen_cases(rng: random.Random, tier: str) -> List[Case]:
                 cases.append(Case(be, scope, [c], "bare"))
                 cases.append(Case(be, scope, [c], "dict", names=[rng.choice(NAMES)]))
                 cases.append(Case(be, scope, [c], "explicit_bare", names=rng.choice(NAMES), tree="t1"))
+                # a bare value (scalar, 1-D or 2-D sequence) under an explicit name LIST: exactly one label is right,
+                # 0 / 2 / 3 labels are a count mismatch (RuntimeError) although nothing is a tuple
+                cases.append(Case(be, scope, [c], "explicit_bare", names=[rng.choice(NAMES)], tree="t1"))
+                cases.append(Case(be, scope, [c], "explicit_bare", names=[], tree="t1"))
+                cases.append(Case(be, scope, [c], "explicit_bare", names=rng.sample(NAMES, 2), tree="t1"))
+                cases.append(Case(be, scope, [c], "explicit_bare", names=rng.sample(NAMES, 3), tree="mytree"))
             for n in (1, 2, 3, 4):
                 for _ in range(per_n):
                     cols = [rng.choice(pool) for _ in range(n)]
